@@ -449,7 +449,7 @@ func (g *sboxGen) event() boxUserEvent {
 			return fmt.Sprintf("%s applied=%v", desc, ok)
 		}}
 	case x < 84:
-		kind := vfPick(r, []string{"cfg-l2adv", "cfg-l2adv", "cfg-bgpadv", "cfg-bgpadv", "cfg-bgpadv-clone", "cfg-peer", "cfg-pool", "cfg-del-l2adv", "cfg-del-bgpadv", "cfg-del-peer"})
+		kind := vfPick(r, []string{"cfg-l2adv", "cfg-l2adv", "cfg-bgpadv", "cfg-bgpadv", "cfg-bgpadv-clone", "cfg-peer", "cfg-pool", "cfg-pool", "cfg-del-l2adv", "cfg-del-bgpadv", "cfg-del-peer"})
 		return boxUserEvent{Kind: kind, Apply: func(s *boxStore) string {
 			seed := r.U64()
 			ok := g.tryConfig(s, func(t *boxStore) {
@@ -489,6 +489,22 @@ func (g *sboxGen) event() boxUserEvent {
 					// replace one pool's blocks, add a pool or drop one
 					names := []string{"poola", "poolb", "poolc"}
 					n := vfPick(gg.r, names)
+					if gg.r.Chance(1, 2) {
+						// prefer a pool some service's address lies in: the speaker refuses a configuration
+						// that leaves an announced address without pool and is asked again until it fits
+						model := vfModelPools(sboxPools(t), nil)
+						var inUse []string
+						for _, k := range vfSortedKeys(s.Services) {
+							for _, ing := range s.Services[k].Status.LoadBalancer.Ingress {
+								if pn := vfPoolOf(model, []string{ing.IP}); pn != "" && pn != "*" {
+									inUse = append(inUse, pn)
+								}
+							}
+						}
+						if len(inUse) > 0 {
+							n = vfPick(gg.r, inUse)
+						}
+					}
 					used := map[string]bool{}
 					for _, k := range vfSortedKeys(t.Pools) {
 						if t.Pools[k].Name != n {
